@@ -153,7 +153,10 @@ def m_de_struct(M, a, c, fr):
 
 def m_de_identifier(M, a, c, fr):
     d = a[0]; vtype = last_generic(c)[-1]
-    if not isinstance(d, JDe) or d.j[0] != 'str' or not isinstance(d.j[1], str): raise Inconclusive('identifier from %r' % (d,))
+    if isinstance(d, JDe) and d.j[0] == 'str' and not isinstance(d.j[1], str):
+        # an opaque string where an identifier (key / variant tag) is expected: it may equal none of the known names -> serde's unknown field / variant path
+        return M.run_fn(visitor_fn(M, vtype, 'visit_str'), [a[1], ValSlice([bv(b, 8) for b in b'\x7fopaque\x7f'], True)])
+    if not isinstance(d, JDe) or d.j[0] != 'str': return res_err(DE_ERR)
     return M.run_fn(visitor_fn(M, vtype, 'visit_str'), [a[1], ValSlice([bv(b, 8) for b in d.j[1].encode()], True)])
 
 
@@ -188,13 +191,18 @@ def m_de_num(M, a, c, fr):
     d = a[0]; w = {'u8': 8, 'u16': 16, 'u32': 32, 'u64': 64}[re.match(r'<(\w+) as', c).group(1)]
     if d.j[0] != 'num' or not z3.is_bv(d.j[1]): return res_err(DE_ERR)
     v = d.j[1]
-    if v.size() != w: raise Inconclusive('number of %d bits read as %d bits' % (v.size(), w))
-    return res_ok(v)
+    if v.size() < w: v = z3.ZeroExt(w - v.size(), v)
+    elif v.size() > w:
+        # JSON numbers are unbounded: a value that does not fit the target width is an error
+        if not M.concrete_bool(z3.Extract(v.size() - 1, w, v) == 0, 'de.num.fits'): return res_err(DE_ERR)
+        v = z3.Extract(w - 1, 0, v)
+    return res_ok(z3.simplify(v))
 
 
 def m_de_string(M, a, c, fr):
     d = a[0]
-    return res_ok(d.j[1]) if d.j[0] == 'str' else res_err(DE_ERR)
+    if d.j[0] != 'str': return res_err(DE_ERR)
+    return res_ok(d.j[1] if not isinstance(d.j[1], str) else Tok('lit:' + d.j[1]))
 
 
 def m_de_vec(M, a, c, fr):
@@ -218,7 +226,7 @@ def m_de_option(M, a, c, fr):
 
 def m_de_enum(M, a, c, fr):
     d = a[0]; vtype = last_generic(c)[-1]
-    if d.j[0] == 'str' and isinstance(d.j[1], str): acc = EnumAcc(d.j[1], None)
+    if d.j[0] == 'str': acc = EnumAcc(d.j[1] if isinstance(d.j[1], str) else '\x7fopaque\x7f', None)
     elif d.j[0] == 'obj' and len(d.j[1]) == 1: acc = EnumAcc(d.j[1][0][0], d.j[1][0][1])
     else: return res_err(DE_ERR)
     return M.run_fn(visitor_fn(M, vtype, 'visit_enum'), [a[3], acc])
@@ -367,12 +375,14 @@ def replay(ctx, path):
 
 def run(ctx):
     T = ctx.thorough()
-    ctx.bounds = {'registry entries': '1 of every kind (all presence / emptiness combinations within the vector bounds), 2 for seeded kind pairs', 'vectors': '<= 2 elements (variants and fields per variant: <= 1); thorough: one more',
+    ctx.bounds = {'registry entries': '1 of every kind (all presence / emptiness combinations within the vector bounds), 2 for seeded kind pairs', 'vectors': '<= 2 elements (variants and fields per variant: <= 1); thorough: one more (variants x fields per variant: 2x1 and 1x2)',
                   'ids / array len / variant index': 'full range (symbolic)', 'strings': 'opaque tokens'}
     ctx.outside = ['serde_json\'s own text layer (the claim is at the serde data-model level: keys, tags, presence, order-insensitive)', 'arbitrary unicode in strings (strings are opaque)']
     ctx.assumptions = ['tree-building model of serde::Serializer / SerializeStruct (externally tagged enums as serde_json renders them)', 'tree-walking models of serde::Deserializer / MapAccess / EnumAccess / VariantAccess (self-describing format: structs from maps, missing Option fields are None)']
     cexs = []
-    plan = [('kind-%s' % KINDS[k], dict(n=1, vec_cap=(1 if k == 1 else 2) + (1 if T else 0), param_cap=1, template=[{'kind': k}])) for k in range(8)] + [('n0', dict(n=0, vec_cap=1, param_cap=1))]
+    plan = [('kind-%s' % KINDS[k], dict(n=1, vec_cap=(1 if k == 1 else 2) + (1 if T and k != 1 else 0), param_cap=1, template=[{'kind': k}])) for k in range(8)] + [('n0', dict(n=0, vec_cap=1, param_cap=1))]
+    if T:   # variants x fields per variant beyond 1x1 with fixed lengths (the free-length product explodes: > 10^6 paths)
+        plan += [('kind-Variant-2x1', dict(n=1, vec_cap=2, param_cap=1, template=[{'kind': 1, 'lens': [2, 1, 1]}])), ('kind-Variant-1x2', dict(n=1, vec_cap=2, param_cap=1, template=[{'kind': 1, 'lens': [1, 2, 1]}]))]
     rng = ctx.rng
     for j in range(4 if T else 2):
         ks = [rng.randrange(8), rng.randrange(8)]
